@@ -8,3 +8,5 @@ for id in "$@"; do
   echo "$out" | grep -E "^  violation" | cut -c1-300 | head -3
 done
 cd /repo && git checkout -- . && git status --short | head -3
+# rebuild after revert: the binaries under /verif/target* must never keep a seeded change compiled in
+(cd /verif/harness && cargo build --quiet 2>/dev/null; cd /repo && RUSTFLAGS="--cfg parol_verif" cargo build --quiet --offline -p parol-ls --target-dir /verif/target-ls 2>/dev/null) || true
